@@ -134,6 +134,35 @@ pub fn remote_fault() -> Option<String> {
     if rc2 != Some(0) || tree(&env.dir.join("dst")) != reference { return Some("[pull] after a run with a failing remote end, running the same command again does not converge to the uninterrupted result (C09)".into()); }
     None
 }
+/// C14: right after a successful run, the same command again transfers nothing and changes nothing (bytes and whole-second
+/// mtimes), in this direction. Source mtimes include a sub-second part, the epoch itself and a far-future value.
+pub fn second_run_is_noop(dir: &str) -> Option<String> {
+    let env = Env::new(&format!("noop{dir}"))?;
+    env.populate("dst")?;
+    let src = env.dir.join("src");
+    let set = |p: &str, secs: u64, nanos: u32| { if let Ok(f) = std::fs::File::options().write(true).open(src.join(p)) { let _ = f.set_modified(std::time::UNIX_EPOCH + std::time::Duration::new(secs, nanos)); } };
+    set("a.txt", 1_600_000_000, 750_000_000); set("empty", 0, 0); set("sub/big.bin", 4_000_000_000, 1); set("sub/small.bin", 1_700_000_000, 999_999_999);
+    let stamp = |r: &Path| -> BTreeMap<String, (Vec<u8>, u64)> { tree(r).into_iter().map(|(p, b)| { let m = std::fs::metadata(r.join(&p)).and_then(|m| m.modified()).ok().and_then(|t| t.duration_since(std::time::UNIX_EPOCH).ok()).map(|d| d.as_secs()).unwrap_or(0); (p, (b, m)) }).collect() };
+    let (rc, out) = env.run(dir, "dst");
+    if rc != Some(0) { return Some(format!("[{dir}] the first run failed (exit {rc:?}): {} (C14)", out.lines().last().unwrap_or(""))); }
+    let (d1, s1) = (stamp(&env.dir.join("dst")), stamp(&src));
+    for (p, (b, m)) in &s1 { match d1.get(p) { Some((b2, m2)) if b2 == b && m2 == m => {}, o => return Some(format!("[{dir}] after a successful run `{p}` at the destination has mtime {:?}, the source has {m} (whole seconds): the next quick check cannot match it (C14)", o.map(|x| x.1))) } }
+    let (rc2, out2) = env.run(dir, "dst");
+    if rc2 != Some(0) { return Some(format!("[{dir}] the second run failed (exit {rc2:?}) (C14)")); }
+    if !(out2.contains("Already up to date") || out2.contains("Plan: 0 to transfer")) { return Some(format!("[{dir}] running the same command again right after a successful run plans transfers: {} (C14)", out2.lines().find(|l| l.starts_with("Plan")).unwrap_or(""))); }
+    if stamp(&env.dir.join("dst")) != d1 || stamp(&src) != s1 { return Some(format!("[{dir}] the second run changed a file or an mtime (C14)")); }
+    None
+}
+pub fn noop_search(as_twin: bool) -> i32 {
+    if std::env::var("COPIA_BIN").unwrap_or_default().is_empty() { eprintln!("COPIA_BIN not set"); if as_twin { println!("CASES 0"); } return 0; }
+    for (di, dir) in DIRS.iter().enumerate() { if let Some(what) = second_run_is_noop(dir) { println!("WITNESS {{\"kind\":\"oneway-noop\",\"dir\":{di},\"what\":\"{}\"}}", what.replace('"', "'")); } }
+    if as_twin { println!("CASES 3"); }
+    0
+}
+pub fn run_noop(w: &str) -> i32 {
+    let dir = DIRS[(json_u64(w, "dir").unwrap_or(0) as usize).min(2)];
+    match second_run_is_noop(dir) { Some(what) => { println!("REPRODUCED: {what}"); 1 } None => { println!("not reproduced: the second run in direction {dir} transfers nothing and changes nothing"); 0 } }
+}
 /// number of file-system / pipe write calls of an uninterrupted run in this direction
 pub fn count_calls(dir: &str) -> usize {
     let Some(env) = Env::new(&format!("{dir}count")) else { return 0 };
